@@ -198,6 +198,7 @@ class EngineC13:
             "samples": samples,
             "over_sample_rate": g.choice([1.1, 1.1, 1.5, 3.0]),
             "np_seed": np_seed,
+            "dense_layout": g.choice(["F", "grown"]),
         }
 
     def _gen_solve_step(self, g, sw, np_seed, stochastic: bool, like=None):
@@ -241,6 +242,7 @@ class EngineC13:
             "tick": g.choice([1e-3, 0.5, 60.0]),
             "fault": None,
             "tolerate": sorted(self.steer),
+            "dense_layout": g.choice(["F", "F", "grown"]),
         }
         if stochastic:
             nnz = int(np.count_nonzero(x))
@@ -332,6 +334,12 @@ class EngineC13:
             if subs.shape[0] == 0:
                 return x, ttb.sptensor(shape=tuple(x.shape))
             return x, ttb.sptensor(subs, vals, tuple(x.shape))
+        if step.get("dense_layout") == "grown" and x.ndim >= 2 and x.shape[-1] >= 2:
+            # a dense tensor that reached its size by assignment (its storage then has another memory layout)
+            T = ttb.tensor(np.asfortranarray(x[..., :-1].copy()))
+            T[(slice(None),) * (x.ndim - 1) + (x.shape[-1] - 1,)] = x[..., -1].copy()
+            if tuple(int(s) for s in T.shape) == tuple(x.shape) and np.array_equal(T.data, x):
+                return x, T
         return x, ttb.tensor(np.asfortranarray(x.copy()))
 
     # --------------------------------------------------------------- dispatch
